@@ -157,6 +157,7 @@ def bounded_sweep(contract, rid, quick=300, thorough=5000, cfg="-"):
         if out.get("calls"):
             bound = f"{out['calls']} calls of extension entry points (argument grid, sanitizer build)"
         return {"function": contract.name, "bound": bound,
-                "cases": out["cases"], "evaluations": out["evaluations"], "samples": out["samples"],
+                "cases": out["cases"], "distinct_inputs": out.get("distinct", 0), "evaluations": out["evaluations"],
+                "samples": out["samples"],
                 "failures": out["failures"]}
     return run
